@@ -189,7 +189,7 @@ theorem split_pieces_are_gaps (s : List Char) : ∀ (ms : List Match) (last : Na
 /-- **transform_spec**: unmatched text verbatim, each match replaced by its (flattened, truthy) tokens -/
 theorem transform_spec (s : List Char) (m : Match) (ms : List Match) (lastE : Nat) :
     transformPieces s (m :: ms) lastE =
-      (if m.start > lastE then slice s lastE m.start else []) ++ strsL (m.toks.filter Tok.truthy)
+      (if m.start > lastE then slice s lastE m.start else []) ++ strsL ((flatL m.toks).filter Tok.truthy)
         ++ transformPieces s ms m.stop := rfl
 
 theorem transform_no_match (s : List Char) : transformPieces s [] 0 = s := by simp [transformPieces]
